@@ -76,6 +76,11 @@ void enc_dec_segments_init(EncDecSegments *segments_ptr, uint32_t segColCount, u
     segRowCount = (segRowCount < segments_ptr->segment_max_row_count)
         ? segRowCount
         : segments_ptr->segment_max_row_count;
+    // A picture (or tile group) that is a single superblock wide offers no wavefront parallelism, and with
+    // several segment rows no segment of a row would ever release the first segment of the row below
+    // (its band index is always one short), so the picture would never complete: use one segment row.
+    if (pic_width_sb == 1)
+        segRowCount = 1;
 
     segments_ptr->sb_row_count       = pic_height_sb;
     segments_ptr->sb_band_count      = BAND_TOTAL_COUNT(pic_height_sb, pic_width_sb);
